@@ -1000,6 +1000,68 @@ impl Real {
                 self.drain();
                 r
             },
+            // ---- the coordinator's state-based recovery API (Recovery.lean; outside the alphabet)
+            ["crecover"] => {
+                if !self.wallclock {
+                    self.reload_coordinator();
+                }
+                let st = self.coord.recover();
+                let mut dec: Vec<(u64, TxPhase)> = self.coord.get_pending_decisions().into_iter().map(|(t, p)| (self.dense(t), p)).collect();
+                dec.sort_by_key(|d| d.0);
+                // the glue re-sends every pending decision
+                for (t, p) in &dec {
+                    let commit = *p == TxPhase::Committing;
+                    let shards = self.coord.get(self.real_tx(*t as usize)).map_or(vec![], |x| x.participants);
+                    self.decide(*t as usize, commit);
+                    for sh in shards {
+                        self.pool.push(if commit { RMsg::Commit { tx: *t as usize, sh } } else { RMsg::Abort { tx: *t as usize, sh } });
+                    }
+                }
+                let ds: Vec<String> = dec.iter().map(|(t, p)| format!("{t}:{}", format!("{p:?}").to_lowercase())).collect();
+                format!(
+                    "rec {} {} {} {} {} dec {}",
+                    st.pending_prepare, st.pending_commit, st.pending_abort, st.timed_out, st.completed,
+                    if ds.is_empty() { "-".to_string() } else { ds.join(",") }
+                )
+            },
+            ["ccomplete_commit", tx] | ["ccomplete_abort", tx] => {
+                let tx: usize = tx.parse().unwrap();
+                let real = self.real_tx(tx);
+                let r = if w[0] == "ccomplete_commit" { self.coord.complete_commit(real) } else { self.coord.complete_abort(real) };
+                match r {
+                    Ok(()) => "ok".into(),
+                    Err(e) if e.to_string().contains("not found") => "err not_found".into(),
+                    Err(_) => "err wrong_phase".into(),
+                }
+            },
+            ["cforce", tx, b] => {
+                let tx: usize = tx.parse().unwrap();
+                let commit = *b != "0";
+                let real = self.real_tx(tx);
+                let pre = self.coord.get(real);
+                match self.coord.force_resolve(real, commit) {
+                    Ok(()) => {
+                        if commit {
+                            let t = &self.txs[tx];
+                            let all_cast = t.shards.iter().all(|&sh| self.votes_cast.get(&(tx, sh)).is_some_and(|v| v.iter().any(|&y| y)));
+                            let all_rec = pre.as_ref().is_some_and(|p| t.shards.iter().all(|sh| matches!(p.votes.get(sh), Some(PrepareVote::Yes { .. }))));
+                            if !(all_cast && all_rec) {
+                                self.viol.push(Violation {
+                                    class: "tensor_chain.2pc/commit_without_all_yes",
+                                    what: format!("force_resolve committed tx {tx} (participants {:?}) cast_yes={all_cast} recorded_yes={all_rec}", t.shards),
+                                });
+                            }
+                        }
+                        self.decide(tx, commit);
+                        for sh in pre.map_or(vec![], |x| x.participants) {
+                            self.pool.push(if commit { RMsg::Commit { tx, sh } } else { RMsg::Abort { tx, sh } });
+                        }
+                        "ok".into()
+                    },
+                    Err(e) if e.to_string().contains("not found") => "err not_found".into(),
+                    Err(_) => "err wrong_phase".into(),
+                }
+            },
             // a vote that no participant produced joins the pool (mis-tagged / mis-routed / forged response)
             ["forge", tx, sh, v] => {
                 let (tx, sh): (usize, usize) = (tx.parse().unwrap(), sh.parse().unwrap());
@@ -1129,6 +1191,8 @@ struct Setup {
     lock_to: u64,
     wallclock: bool,
     age_parts: bool,
+    /// the generator also draws the coordinator's recovery API (outside the alphabet)
+    recovery: bool,
 }
 impl Setup {
     fn init_line(&self) -> String {
@@ -1161,7 +1225,8 @@ fn tag_of(line: &str, ans: &str, real: &Real) -> String {
         },
         "sweep" => format!("sweep.{}", if b == "-" { "none" } else { "some" }),
         "begin" => format!("begin.{}", if a == "tx" { "ok" } else { "too_many" }),
-        "ccommit" | "cabort" => format!("{op}.{}", if a == "ok" { "ok".to_string() } else { b.to_string() }),
+        "ccommit" | "cabort" | "ccomplete_commit" | "ccomplete_abort" | "cforce" => format!("{op}.{}", if a == "ok" { "ok".to_string() } else { b.to_string() }),
+        "crecover" => format!("crecover.{}", if res.contains("dec -") { "no_decision" } else { "decisions" }),
         "cvote" => format!("cvote.{}", if a == "voted" { b.to_string() } else { format!("err.{b}") }),
         _ => op.to_string(),
     }
@@ -1455,6 +1520,11 @@ fn gen_schedule_mode(r: &mut Rng, setup: &Setup, max_events: usize, rep: &mut Re
                 choices.push(("stale", 3));
                 choices.push(("recover", 3));
             }
+            if setup.recovery {
+                choices.push(("crecover", 5));
+                choices.push(("ccomplete", 5));
+                choices.push(("cforce", 2));
+            }
         }
         let total: u64 = choices.iter().map(|c| c.1).sum();
         let mut x = r.below(total);
@@ -1536,6 +1606,19 @@ fn gen_schedule_mode(r: &mut Rng, setup: &Setup, max_events: usize, rep: &mut Re
                 format!("{pick} {sh} {}", r.below(3))
             },
             "cabort" => format!("cabort {}", r.below(real.txs.len() as u64 + 1)),
+            "crecover" => "crecover".to_string(),
+            "ccomplete" => {
+                let dec = real.coord.get_pending_decisions();
+                if !dec.is_empty() && r.chance(4, 5) {
+                    let (t, p) = *r.pick(&dec);
+                    // mostly the matching completion, sometimes the wrong one
+                    let commit = (p == TxPhase::Committing) != r.chance(1, 8);
+                    format!("ccomplete_{} {}", if commit { "commit" } else { "abort" }, real.dense(t))
+                } else {
+                    format!("ccomplete_{} {}", if r.chance(1, 2) { "commit" } else { "abort" }, r.below(real.txs.len() as u64 + 1))
+                }
+            },
+            "cforce" => format!("cforce {} {}", r.below(real.txs.len() as u64 + 1), r.below(2)),
             "forge" => {
                 // inside the alphabet: any NO / CONFLICT (also for a tx that is not begun yet), a YES only
                 // tagged with a shard that is not a participant of an existing tx (zero embedding)
@@ -1568,7 +1651,7 @@ fn gen_schedule_mode(r: &mut Rng, setup: &Setup, max_events: usize, rep: &mut Re
 }
 
 fn directed() -> Vec<(&'static str, Setup, Vec<String>)> {
-    let s2 = || Setup { n: 2, t_units: 2, maxc: 100, lock_to: 1000, wallclock: false, age_parts: false };
+    let s2 = || Setup { n: 2, t_units: 2, maxc: 100, lock_to: 1000, wallclock: false, age_parts: false, recovery: false };
     let l = |v: &[&str]| v.iter().map(|x| x.to_string()).collect::<Vec<String>>();
     let b = |sh: &[usize], ops: &[&str], embs: &[u64]| begin_line(sh, &ops.iter().map(|o| parse_ops(o)).collect::<Vec<_>>(), embs);
     vec![
@@ -1620,6 +1703,16 @@ fn directed() -> Vec<(&'static str, Setup, Vec<String>)> {
             v.extend(l(&["cabort 0", "deliver 2", "deliver 0", "deliver 2", "deliver 0", "deliver 1", "deliver 3"]));
             v
         }),
+        // a shard named twice in the participant list (two PREPAREs, the second a duplicate; one vote
+        // completes the quorum) and a participant with no operations (locks nothing, votes YES)
+        ("degenerate-participants", s2(), {
+            let mut v = l(&["preload 0 1 5"]);
+            v.push(b(&[0, 0], &["p1=7", "p1=8"], &[1, 1])); //   0,1 = PREPARE(T0) to shard 0, twice
+            v.push(b(&[1, 0], &["-", "c1?7=9"], &[0, 2])); //    2,3 = PREPARE(T1): shard 1 has nothing to do
+            v.extend(l(&["deliver 0", "deliver 1", "deliver 4", "deliver 5", "ccommit 0", "deliver 6", "deliver 7",
+                "deliver 2", "deliver 3", "deliver 8", "deliver 9", "ccommit 1", "deliver 10", "deliver 11"]));
+            v
+        }),
         ("three-shards-two-txs", Setup { n: 3, ..s2() }, {
             let mut v = l(&["preload 2 0 9"]);
             v.push(b(&[0, 1, 2], &["p0=1", "p0=2", "d0"], &[1, 2, 3]));
@@ -1641,7 +1734,7 @@ fn directed_late() -> Vec<(String, Setup, Vec<String>)> {
     for n in [2usize, 3] {
         for cause in ["timeout", "no-vote"] {
             for end in ["resent-abort", "cleanup-stale"] {
-                let setup = Setup { n, t_units: 2, maxc: 100, lock_to: 1000, wallclock: false, age_parts: false };
+                let setup = Setup { n, t_units: 2, maxc: 100, lock_to: 1000, wallclock: false, age_parts: false, recovery: false };
                 let shards: Vec<usize> = (0..n).collect();
                 let embs: Vec<u64> = (0..n as u64).map(|i| 1 + i % 3).collect();
                 let mut v: Vec<String> = (0..n).map(|sh| format!("preload {sh} {} {}", sh + 1, 5 + sh)).collect();
@@ -1680,7 +1773,7 @@ fn directed_late() -> Vec<(String, Setup, Vec<String>)> {
     }
     // T0 finished by its own COMMIT; the zombie's undo image is then T0's committed value
     {
-        let setup = Setup { n: 2, t_units: 2, maxc: 100, lock_to: 1000, wallclock: false, age_parts: false };
+        let setup = Setup { n: 2, t_units: 2, maxc: 100, lock_to: 1000, wallclock: false, age_parts: false, recovery: false };
         let mut v: Vec<String> = vec!["preload 0 1 5".into(), "preload 1 2 6".into()];
         v.push(b(&[0, 1], &["p1=7".to_string(), "p2=8".to_string()], &[1, 2])); // 0,1 = PREPARE(T0)
         for l in ["deliver 0", "deliver 1", "deliver 2", "deliver 3", "ccommit 0", "deliver 4", "deliver 5"] {
@@ -1701,7 +1794,7 @@ fn directed_late() -> Vec<(String, Setup, Vec<String>)> {
 /// holds T0's key on shard 1, a YES tagged "shard 2" reaches the coordinator after shard 0's YES and
 /// BEFORE shard 1's CONFLICT.
 fn directed_forged() -> Vec<(&'static str, Setup, Vec<String>)> {
-    let s3 = || Setup { n: 3, t_units: 2, maxc: 100, lock_to: 1000, wallclock: false, age_parts: false };
+    let s3 = || Setup { n: 3, t_units: 2, maxc: 100, lock_to: 1000, wallclock: false, age_parts: false, recovery: false };
     let l = |v: &[&str]| v.iter().map(|x| x.to_string()).collect::<Vec<String>>();
     let b = |sh: &[usize], ops: &[&str], embs: &[u64]| begin_line(sh, &ops.iter().map(|o| parse_ops(o)).collect::<Vec<_>>(), embs);
     vec![
@@ -1745,7 +1838,7 @@ fn directed_forged() -> Vec<(&'static str, Setup, Vec<String>)> {
 /// re-installs T0's undo image over T1's committed write.  Lean:
 /// `abort_restores_shard_without_lock_discipline_witness`.
 fn alias_histories() -> Vec<(&'static str, Setup, Vec<String>)> {
-    let s2 = || Setup { n: 2, t_units: 2, maxc: 100, lock_to: 1000, wallclock: false, age_parts: false };
+    let s2 = || Setup { n: 2, t_units: 2, maxc: 100, lock_to: 1000, wallclock: false, age_parts: false, recovery: false };
     let b = |sh: &[usize], ops: &[&str], embs: &[u64]| begin_line(sh, &ops.iter().map(|o| parse_ops(o)).collect::<Vec<_>>(), embs);
     let mk = |a: &str, bb: &str| {
         let mut v = vec![b(&[0, 1], &[a, "p2=8"], &[1, 2]), b(&[0, 1], &[bb, "p3=10"], &[1, 2])];
@@ -1772,7 +1865,7 @@ fn witnesses() -> Vec<(&'static str, Setup, Vec<String>)> {
     vec![
         (
             "cleanup_stale_splits_outcome",
-            Setup { n: 2, t_units: 2, maxc: 100, lock_to: 1000, wallclock: false, age_parts: false },
+            Setup { n: 2, t_units: 2, maxc: 100, lock_to: 1000, wallclock: false, age_parts: false, recovery: false },
             {
                 let mut v = vec![];
                 v.push(b(&[0, 1], &["p1=7", "p3=9"], &[1, 2]));
@@ -1782,7 +1875,7 @@ fn witnesses() -> Vec<(&'static str, Setup, Vec<String>)> {
         ),
         (
             "lock_expiry_abort_changes_shard",
-            Setup { n: 1, t_units: 2, maxc: 100, lock_to: 0, wallclock: false, age_parts: true },
+            Setup { n: 1, t_units: 2, maxc: 100, lock_to: 0, wallclock: false, age_parts: true, recovery: false },
             {
                 let mut v = l(&["preload 0 1 5"]);
                 v.push(b(&[0], &["p1=7"], &[1]));
@@ -1792,6 +1885,70 @@ fn witnesses() -> Vec<(&'static str, Setup, Vec<String>)> {
             },
         ),
     ]
+}
+
+/// `record_vote` is two critical sections with an unlocked similarity computation between them
+/// (Lean: VoteSplit.lean).  Two REAL threads: thread A delivers the last participant's YES with a
+/// delta large enough that phase 2 takes milliseconds; the main thread waits until A is inside
+/// `record_vote` and then delivers a stray NO tagged with a non-participant shard, which blocks on the
+/// `pending` lock until A's phase 1 is over and is then recorded while A computes.  Observation only:
+/// `cluster.rs` calls `record_vote` from a single loop.
+fn record_vote_race(rep: &mut Report) {
+    use std::sync::atomic::{AtomicBool, Ordering};
+    use std::sync::Arc;
+    let cfg = DistributedTxConfig { prepare_timeout_ms: 10 * UNIT, max_concurrent: 10, ..DistributedTxConfig::default() };
+    let n = 1_000_000usize;
+    let half = |second: bool| {
+        let mut d = vec![0.0f32; 2 * n];
+        let off = if second { n } else { 0 };
+        for x in &mut d[off..off + n] {
+            *x = 1.0;
+        }
+        SparseVector::from_dense(&d)
+    };
+    let mut out = json!(null);
+    let mut reproduced = false;
+    for attempt in 0..3 {
+        let coord = Arc::new(mk_coord(&cfg));
+        let tx = coord.begin(&"c".to_string(), &[0, 1]).expect("begin").tx_id;
+        let yes = |h: u64, second: bool, key: &str| PrepareVote::Yes {
+            lock_handle: (1u64 << 61) + h,
+            delta: DeltaVector::from_sparse(half(second), [key.to_string()].into_iter().collect(), tx),
+        };
+        let first = coord.record_vote(tx, 0, yes(0, false, "k1"));
+        let vote_b = yes(1, true, "k2");
+        let started = Arc::new(AtomicBool::new(false));
+        let (c2, s2) = (coord.clone(), started.clone());
+        let a = std::thread::spawn(move || {
+            s2.store(true, Ordering::SeqCst);
+            c2.record_vote(tx, 1, vote_b)
+        });
+        while !started.load(Ordering::SeqCst) {
+            std::hint::spin_loop();
+        }
+        std::thread::sleep(Duration::from_millis(1));
+        let stray = coord.record_vote(tx, 5, PrepareVote::No { reason: "stray".into() });
+        let last = a.join().expect("thread A");
+        let queued = coord.take_pending_aborts();
+        let phase = coord.get(tx).map(|t| format!("{:?}", t.phase));
+        let commit_ok = coord.commit(tx).is_ok();
+        let hit = matches!(stray, Ok(Some(TxPhase::Aborting))) && matches!(last, Ok(Some(TxPhase::Prepared))) && !queued.is_empty() && commit_ok;
+        out = json!({
+            "observation": "record_vote_phase3_overwrites_concurrent_abort",
+            "attempt": attempt,
+            "first_yes": format!("{first:?}"), "stray_no_between_the_phases": format!("{stray:?}"), "last_yes": format!("{last:?}"),
+            "abort_broadcasts_queued": queued.len(), "phase_after": phase, "commit_succeeded": commit_ok,
+            "reproduced_on_real_objects": hit,
+            "note": "a transaction with an ABORT broadcast in the queue was committed: phase 3b of record_vote sets Prepared without re-checking that the tx is still Preparing. Needs two threads in record_vote (the &self API allows it; cluster.rs does not do it). Lean: record_vote_interleaved_phases_decide_twice_outside_quantifier_witness; proposed/C03-record-vote-phase3-recheck.diff"
+        });
+        if hit {
+            reproduced = true;
+            break;
+        }
+    }
+    rep.case("record-vote-threads", None);
+    rep.hit(if reproduced { "race.record_vote.reproduced" } else { "race.record_vote.not_reproduced" });
+    rep.observe(out);
 }
 
 const EXPECTED: &[&str] = &[
@@ -1809,6 +1966,8 @@ const EXPECTED: &[&str] = &[
     "forged.stray_shard.verr_not_found", "forged.participant_or_unknown_tx.voted_none",
     "forged.participant_or_unknown_tx.voted_aborting", "forged.participant_or_unknown_tx.verr_duplicate",
     "forged.participant_or_unknown_tx.verr_not_found",
+    "crecover.decisions", "crecover.no_decision", "ccomplete_commit.ok", "ccomplete_commit.not_found", "ccomplete_commit.wrong_phase",
+    "ccomplete_abort.ok", "ccomplete_abort.not_found", "ccomplete_abort.wrong_phase", "cforce.ok", "cforce.not_found", "cforce.wrong_phase",
 ];
 
 /// Does the script, run on fresh REAL objects only, trip the monitor `class`?
@@ -1876,7 +2035,7 @@ fn main() {
                 if let (Some(init), Some(script)) = (fi["setup"].as_str(), fi["script"].as_array()) {
                     let w: Vec<u64> = init.split_whitespace().skip(1).filter_map(|x| x.parse().ok()).collect();
                     if w.len() == 4 {
-                        let setup = Setup { n: w[0] as usize, t_units: w[1], maxc: w[2] as usize, lock_to: w[3], wallclock: false, age_parts: false };
+                        let setup = Setup { n: w[0] as usize, t_units: w[1], maxc: w[2] as usize, lock_to: w[3], wallclock: false, age_parts: false, recovery: false };
                         let lines: Vec<String> = script.iter().filter_map(|x| x.as_str().map(String::from)).collect();
                         let o = run_script(&mut m, &mut rep, "replay", &setup, &lines, true);
                         record(&mut rep, &mut m, "replay", &setup, &lines, &o);
@@ -1932,6 +2091,7 @@ fn main() {
             lock_to: 1000,
             wallclock: false,
             age_parts: false,
+            recovery: false,
         };
         let max_events = 20 + r.below(41) as usize;
         let lines = gen_schedule(&mut r, &setup, max_events, &mut rep);
@@ -1950,7 +2110,7 @@ fn main() {
     let mut r = root.fork("late-duplicates");
     let mut violating = 0;
     for i in 0..if args.thorough { 3000 } else { 250 } {
-        let setup = Setup { n: 2 + r.below(2) as usize, t_units: 2, maxc: 100, lock_to: 1000, wallclock: false, age_parts: false };
+        let setup = Setup { n: 2 + r.below(2) as usize, t_units: 2, maxc: 100, lock_to: 1000, wallclock: false, age_parts: false, recovery: false };
         let max_events = 25 + r.below(36) as usize;
         let lines = gen_schedule_mode(&mut r, &setup, max_events, &mut rep, true);
         let o = run_script(&mut m, &mut rep, "late-duplicates", &setup, &lines, true);
@@ -1967,7 +2127,7 @@ fn main() {
     // ---- coordinator-level record_vote with forged votes (No votes, unknown shards, unknown txs)
     let mut r = root.fork("coord-unit");
     for _ in 0..if args.thorough { 1500 } else { 200 } {
-        let setup = Setup { n: 0, t_units: 2, maxc: 100, lock_to: 1000, wallclock: false, age_parts: false };
+        let setup = Setup { n: 0, t_units: 2, maxc: 100, lock_to: 1000, wallclock: false, age_parts: false, recovery: false };
         let mut lines = vec![];
         let ntx = 1 + r.below(2) as usize;
         let mut shards_of = vec![];
@@ -2014,7 +2174,7 @@ fn main() {
     // ---- untouched wall clock: 1 ms timeout, every tick sleeps 3 ms, sweeps follow ticks
     let mut r = root.fork("wallclock");
     for _ in 0..if args.thorough { 60 } else { 12 } {
-        let setup = Setup { n: 2, t_units: 0, maxc: 100, lock_to: 1000, wallclock: true, age_parts: false };
+        let setup = Setup { n: 2, t_units: 0, maxc: 100, lock_to: 1000, wallclock: true, age_parts: false, recovery: false };
         let mut lines = vec![];
         let ops = vec![gen_ops(&mut r, 3), gen_ops(&mut r, 3)];
         lines.push(begin_line(&[0, 1], &ops, &[1, 2]));
@@ -2041,7 +2201,7 @@ fn main() {
     let mut r = root.fork("extended");
     let mut ext_hits: BTreeMap<String, u64> = BTreeMap::new();
     for _ in 0..if args.thorough { 600 } else { 60 } {
-        let setup = Setup { n: 1 + r.below(2) as usize, t_units: 2, maxc: 100, lock_to: 0, wallclock: false, age_parts: true };
+        let setup = Setup { n: 1 + r.below(2) as usize, t_units: 2, maxc: 100, lock_to: 0, wallclock: false, age_parts: true, recovery: false };
         let lines = gen_schedule(&mut r, &setup, 30, &mut rep);
         let o = run_script(&mut m, &mut rep, "outside-quantifier", &setup, &lines, false);
         rep.case("outside-quantifier", None);
@@ -2096,10 +2256,87 @@ fn main() {
         }
     }
 
+    // ---- the coordinator's recovery API (recover / get_pending_decisions / complete_* / force_resolve):
+    //      correspondence with Recovery.lean; outside the alphabet, monitor hits are observations
+    {
+        let sr = || Setup { n: 2, t_units: 2, maxc: 100, lock_to: 1000, wallclock: false, age_parts: false, recovery: true };
+        let l = |v: &[&str]| v.iter().map(|x| x.to_string()).collect::<Vec<String>>();
+        let b = |sh: &[usize], ops: &[&str], embs: &[u64]| begin_line(sh, &ops.iter().map(|o| parse_ops(o)).collect::<Vec<_>>(), embs);
+        let both_yes = ["deliver 0", "deliver 1", "deliver 2", "deliver 3"];
+        let witnesses: Vec<(&str, Vec<String>)> = vec![
+            ("recover_then_timeout_sweep_changes_decision", {
+                let mut v = vec![b(&[0, 1], &["p1=7", "p3=9"], &[1, 2])];
+                v.extend(l(&both_yes));
+                v.extend(l(&["crecover", "tick 3", "sweep", "deliver 4", "deliver 7", "ccomplete_commit 0"]));
+                v
+            }),
+            ("recover_then_abort_changes_decision", {
+                let mut v = vec![b(&[0, 1], &["p1=7", "p3=9"], &[1, 2])];
+                v.extend(l(&both_yes));
+                v.extend(l(&["crecover", "cabort 0", "deliver 4", "deliver 7"]));
+                v
+            }),
+            ("force_resolve_commits_without_all_yes", {
+                let mut v = vec![b(&[0, 1], &["p1=7", "p3=9"], &[1, 2])];
+                v.extend(l(&["deliver 0", "deliver 2", "cforce 0 1", "deliver 3", "deliver 4"]));
+                v
+            }),
+            ("recover_commits_and_aborts_then_completes", {
+                let mut v = vec![b(&[0, 1], &["p1=7", "p3=9"], &[1, 2])];
+                v.extend(l(&both_yes));
+                v.extend(l(&["crecover", "deliver 4", "deliver 5", "ccomplete_abort 0", "ccomplete_commit 0", "ccomplete_commit 0"]));
+                v.push(b(&[0, 1], &["p1=8", "p3=1"], &[1, 2])); // 6,7 = PREPARE(T1)
+                v.extend(l(&["deliver 6", "tick 3", "crecover", "deliver 9", "deliver 10", "ccomplete_abort 1", "cforce 1 0", "crecover"]));
+                v
+            }),
+        ];
+        for (name, lines) in witnesses {
+            let setup = sr();
+            let o = run_script(&mut m, &mut rep, "coord-recovery", &setup, &lines, true);
+            rep.case("coord-recovery", None);
+            for t in &o.tags {
+                rep.hit(t);
+            }
+            rep.observe(json!({
+                "witness": name, "setup": setup.init_line(), "script": lines,
+                "model_agrees": !o.disagreed,
+                "monitor_hits": o.observations,
+                "note": "coordinator recovery API (recover + re-sent decisions, complete_commit / complete_abort, force_resolve): outside C03's quantifier; Lean PropsRecovery.lean"
+            }));
+            if name != "recover_commits_and_aborts_then_completes" && (o.observations.is_empty() || o.disagreed) {
+                rep.note(&format!("recovery witness {name} did NOT reproduce on the real objects (behaviour changed?)"));
+            }
+        }
+        let mut r = root.fork("coord-recovery");
+        let mut hits: BTreeMap<String, u64> = BTreeMap::new();
+        for _ in 0..if args.thorough { 1200 } else { 120 } {
+            let setup = Setup { n: 2 + r.below(2) as usize, ..sr() };
+            let max_events = 20 + r.below(25) as usize;
+            let lines = gen_schedule(&mut r, &setup, max_events, &mut rep);
+            let o = run_script(&mut m, &mut rep, "coord-recovery", &setup, &lines, true);
+            rep.case("coord-recovery", None);
+            for t in &o.tags {
+                if t.starts_with("crecover") || t.starts_with("ccomplete") || t.starts_with("cforce") {
+                    rep.hit(t);
+                }
+            }
+            for ob in &o.observations {
+                *hits.entry(ob.split(':').next().unwrap_or("").to_string()).or_insert(0) += 1;
+            }
+            // up to the first recovery call the schedule is inside the alphabet: violations count
+            record(&mut rep, &mut m, "coord-recovery", &setup, &lines, &Outcome { nontrivial: false, tags: vec![], observations: vec![], ..o });
+        }
+        rep.observe(json!({"stream": "coord-recovery random schedules", "monitor_hits_by_class": hits,
+            "note": "with recover / complete_* / force_resolve in the alphabet decisions can change (cleanup_timeouts and abort() have no phase test, force_resolve's all_yes is vacuous over the votes present); by design these are not violations of C03"}));
+    }
+
+    // ---- two real threads inside record_vote (observation)
+    record_vote_race(&mut rep);
+
     // ---- duplicate prepare + duplicate commit after another tx committed the same key: re-applies
     //      the first tx's writes (not excluded by C03's statement; reported as an observation)
     {
-        let setup = Setup { n: 1, t_units: 2, maxc: 100, lock_to: 1000, wallclock: false, age_parts: false };
+        let setup = Setup { n: 1, t_units: 2, maxc: 100, lock_to: 1000, wallclock: false, age_parts: false, recovery: false };
         let mut lines = vec![begin_line(&[0], &[parse_ops("p1=7")], &[1]), begin_line(&[0], &[parse_ops("p1=9")], &[1])];
         for l in ["deliver 0", "deliver 2", "ccommit 0", "deliver 3", "deliver 1", "deliver 4", "ccommit 1", "deliver 5", "deliver 0", "deliver 3"] {
             lines.push(l.to_string());
